@@ -1,29 +1,10 @@
-"""Per-property configuration of the check pipeline (see DESIGN.md section 5)."""
+"""Per-property configuration: one file props/Cxx.json = {"check": {...pipeline config...}, "meta": {...MANIFEST text...}}."""
+import glob, json, os
 
-COMMON_TB = [
-    "hand-written Gallina model tied to the code by the correspondence harness (model evaluated with vm_compute on the cases the real code ran)",
-]
-
-PROPS = {
-    "C20": {
-        "id": "C20",
-        "go_pkg": "./db",
-        "go_test": "TestVerifC20",
-        "harness_files": ["db/verif_c20_test.go"],
-        "gen": [{"src": "db/sequence_id.go", "struct": "SequenceID", "funcs": "SafeSequence,Before,intSeqToString",
-                 "out": "theories/C20/SeqIdGen.v"}],
-        "coq_targets": ["theories/C20/C20_Properties.vo", "theories/C20/C20_Corr.vo", "theories/C20/C20_Refuted.vo"],
-        "corr_target": "theories/C20/C20_Corr.vo",
-        "corr_module": "C20.C20_Corr",
-        "properties_file": "theories/C20/C20_Properties.v",
-        "rule": "cases: (i) Before over ALL pairs of the 125 tokens of {0..4}^3 (exhaustive) and all pairs inside chunks of random tokens with boundary values; "
-                "(ii) SafeSequence/String/MarshalJSON per token; (iii) parser and JSON streams: corpus, valid prints, prints with 1-2 byte mutations. "
-                "distinct = distinct SHA-256 of the canonical case text; non-trivial = pair of tokens of different forms / compound token / rejected or long input.",
-        "trusted_base": COMMON_TB + [
-            "go2coq translator (SequenceID.Before, SafeSequence, intSeqToString regenerated from /repo/db/sequence_id.go on every run; the order laws are proved on the regenerated definition)",
-            "hand model of parseIntegerSequenceID / MarshalJSON / UnmarshalJSON (inputs without backslash escapes) and of fmt %d rendering (Coq stdlib DecimalString)",
-        ],
-        "assumptions": ["token components < 2^64 (uint64) for the round-trip theorems (wf64)",
-                        "base.ErrorAsHTTPStatus decides what the client sees for a parse error"],
-    },
-}
+_root = os.path.dirname(os.path.dirname(os.path.abspath(__file__)))
+PROPS = {}
+META = {}
+for _f in sorted(glob.glob(os.path.join(_root, "props", "C*.json"))):
+    _d = json.load(open(_f))
+    PROPS[_d["check"]["id"]] = _d["check"]
+    META[_d["check"]["id"]] = _d["meta"]
